@@ -34,6 +34,9 @@ func genC09(t *rapid.T) CacheCase {
 	w := gen.AnyWorld(t, o)
 	c := CacheCase{World: w, Cfg: genCacheCfg(t, false, true)}
 	c.Cfg.Shared = rapid.IntRange(0, 3).Draw(t, "shared") > 0 // mostly on; off isolates the iterator caches
+	// (Cfg.Backend = "sqlite" is supported by the history runner but not generated: on the process-wide sqlite
+	// datastore clean requests of these histories run into "Request Deadline Exceeded" while earlier requests'
+	// iterators are still being drained in the background - not understood well enough to be asserted either way)
 	n := rapid.IntRange(4, 12).Draw(t, "nOps")
 	var prev []m.Request
 	for i := 0; i < n; i++ {
